@@ -10,6 +10,21 @@ PROPERTY = "C11"
 _TABLES = {}
 
 
+_PRIOR = set()
+
+
+def prior(order):
+    """history: the first use of the motif code in a process (driver: before the class tables are looked at by
+    selfcheck, workers inherit that state; replay: a fresh process repeats it) is a census of a fixed hypergraph that
+    contains a hyperedge of the full size.  What was computed earlier must not influence a later census."""
+    if order in _PRIOR:
+        return
+    _PRIOR.add(order)
+    import hypergraphx
+
+    census(hypergraphx.Hypergraph({3: [(1, 2, 3), (3, 4), (4, 5)], 4: [(1, 2, 3, 4), (4, 5), (5, 6)]}[order]), order)
+
+
 def memo_generate(N):
     """generate_motifs(N) has no input besides N: evaluated once outside the tracer, copied per call"""
     from crosshair.tracers import NoTracing
@@ -107,6 +122,7 @@ def build(spec):
         else:
             ctx = contextlib.nullcontext()
         with ctx:
+            prior(order)
             h = hypergraphx.Hypergraph(present)
             obs = census(h, order)
             # second run: non-monotone relabelling, reversed insertion order, reversed node listing
@@ -260,6 +276,8 @@ def selfcheck(tier):
     every connected labelled pattern belongs to exactly one class"""
     from hypergraphx.motifs.utils import generate_motifs
 
+    prior(3)
+    prior(4)
     n = 0
     for N, want in ((3, 6), (4, 171)):
         mapping, labeling = generate_motifs(N)
